@@ -14,7 +14,7 @@
 // The same case function is driven by rapidcheck (choice tapes) and by libFuzzer (bytes -> tape).
 #include "c06_case.h"
 using namespace hz;
-static CaseResult run_case(Tape &t) { if (t.chance(1, 6)) return c06::handshake_spoof_case(t); return c06::run_case(t); }
+static CaseResult run_case(Tape &t) { if (t.chance(1, 6)) return t.chance(1, 3) ? c06::handshake_short_reply_case(t, dif::CaseOpt()) : c06::handshake_spoof_case(t); return c06::run_case(t); }
 
 #ifdef VERIF_FUZZ_TARGET
 #include "fuzz_entry.h"
